@@ -26,7 +26,10 @@ var rules = map[string]ruleFn{
 	"C11": ruleC11,
 	"C12": ruleC12,
 	"C13": ruleC13,
+	"C14": ruleC14,
 	"C15": ruleC15,
+	"C16": ruleC16,
+	"C17": ruleC17,
 	"C18": ruleC18,
 	"C20": ruleC20,
 }
